@@ -559,6 +559,11 @@ struct Slot {
     pos: usize,
     /// highest number of user-held handles seen while this op was outstanding
     max_held: usize,
+    /// highest value of (user-held handles + OTHER single-shot reads outstanding) seen while this op
+    /// was outstanding: a read that is still in a slot may already have completed inside the kernel
+    /// with a selected buffer (data, or -- on kernels that consume a buffer for it -- 0 bytes at end
+    /// of file, after which no handle ever shows that the buffer was away)
+    max_away: usize,
     /// a multishot stream or a dropped-but-unreleased operation existed while this op was
     /// outstanding: such operations may own buffers the harness cannot count
     shadow: bool,
@@ -723,8 +728,10 @@ impl<'a> World<'a> {
     fn bump_max_held(&mut self) {
         let h = self.held.len();
         let shadow = self.multi.is_some() || self.zombies.iter().any(|p| p.live.get() > 0);
+        let pending = self.pending_slots();
         for s in self.slots.iter_mut().flatten() {
             s.max_held = s.max_held.max(h);
+            s.max_away = s.max_away.max(h + pending - 1);
             s.shadow |= shadow;
         }
         if let Some(m) = &mut self.multi {
@@ -988,7 +995,7 @@ impl<'a> World<'a> {
     }
 
     /// judge an error result of a managed read / stream item
-    fn on_error(&mut self, e: io::Error, origin: &str, max_held: usize, shadow: bool) {
+    fn on_error(&mut self, e: io::Error, origin: &str, max_held: usize, max_away: usize, shadow: bool) {
         let own_pending = 0;
         let cls = errclass(&e);
         self.note(format!("Err({cls})"));
@@ -1015,7 +1022,8 @@ impl<'a> World<'a> {
         } else if shadow || self.multi.is_some() || zombies > 0 {
             usize::MAX // completions queued inside a multishot op / a cancelled op: not observable
         } else {
-            max_held.max(self.held.len()) + self.pending_slots().saturating_sub(own_pending)
+            // the failing op itself is no longer in a slot here
+            (max_held.max(self.held.len()) + self.pending_slots().saturating_sub(own_pending)).max(max_away)
         };
         if away < self.cfg.pool as usize {
             self.vio(
@@ -1061,7 +1069,7 @@ impl<'a> World<'a> {
                 false
             }
             Poll::Ready(r) => {
-                let Slot { fut, probe, len, pos, max_held, shadow, name, .. } = s;
+                let Slot { fut, probe, len, pos, max_held, max_away, shadow, name, .. } = s;
                 drop(fut);
                 if probe.live.get() > 0 {
                     self.zombies.push(probe);
@@ -1089,7 +1097,7 @@ impl<'a> World<'a> {
                             self.judge_zero(&origin, false);
                         }
                     }
-                    Err(e) => self.on_error(e, &origin, max_held, shadow),
+                    Err(e) => self.on_error(e, &origin, max_held, max_away, shadow),
                 }
                 true
             }
@@ -1226,7 +1234,9 @@ impl<'a> World<'a> {
         let fut = make_read(rt, self.cfg.source, fd, len, pos as u64);
         let (flag, waker) = new_flag();
         let shadow = self.multi.is_some() || self.zombies.iter().any(|p| p.live.get() > 0);
-        self.slots[i] = Some(Slot { fut, flag, waker, probe, len, pos, max_held: self.held.len(), shadow, name });
+        self.slots[i] = Some(Slot { fut, flag, waker, probe, len, pos, max_held: self.held.len(), max_away: 0, shadow, name });
+        // this read and the ones already outstanding now see each other
+        self.bump_max_held();
         if !self.poll_slot(i, "first poll") {
             self.note("pending".into());
         }
@@ -1295,7 +1305,7 @@ impl<'a> World<'a> {
                         self.receive(buf, cap, 0, "multishot stream".into());
                     }
                     Some(Err(e)) => {
-                        self.on_error(e, "multishot stream", max_held, true);
+                        self.on_error(e, "multishot stream", max_held, 0, true);
                     }
                     None => {
                         self.note("end of stream".into());
